@@ -7,7 +7,7 @@ cd /verif/coq
 timeout 1800 make -j16 Extract.vo > /verif/coq/make.log 2>&1 || { tail -20 /verif/coq/make.log; exit 1; }
 mkdir -p /verif/build/model
 cd /verif/build/model
-if [ ! -f model_driver ] || [ /verif/coq/model.ml -nt model_driver ] || [ /verif/harness/model_driver.ml -nt model_driver ] || [ /verif/coq/Dispatch.v -nt model_driver ] || [ /verif/harness/hist_model.ml -nt model_driver ] || [ /verif/harness/fmt_model.ml -nt model_driver ]; then
+if [ ! -f model_driver ] || [ /verif/coq/model.ml -nt model_driver ] || [ /verif/harness/model_driver.ml -nt model_driver ] || [ /verif/coq/Dispatch.v -nt model_driver ] || [ /verif/harness/hist_model.ml -nt model_driver ] || [ /verif/harness/fmt_model.ml -nt model_driver ] || [ /verif/harness/fmt_engine.ml -nt model_driver ]; then
   cp /verif/coq/model.ml /verif/coq/model.mli /verif/harness/model_driver.ml .
   python3 /verif/harness/gen_fn_table.py fn_table.ml
   ocamlfind ocamlopt -O3 -w -a model.mli model.ml fn_table.ml model_driver.ml -o model_driver 2>/dev/null || ocamlfind ocamlopt -w -a model.mli model.ml fn_table.ml model_driver.ml -o model_driver
@@ -15,6 +15,8 @@ if [ ! -f model_driver ] || [ /verif/coq/model.ml -nt model_driver ] || [ /verif
   ocamlfind ocamlopt -w -a model.mli model.ml hist_model.ml -o hist_model
   cp /verif/harness/fmt_model.ml .
   ocamlfind ocamlopt -w -a model.mli model.ml fmt_model.ml -o fmt_model
+  cp /verif/harness/fmt_engine.ml .
+  ocamlfind ocamlopt -w -a model.mli model.ml fmt_engine.ml -o fmt_engine
 fi
 # C17: the normalisation model over the regenerated tables (own target: a failure here only affects C17)
 if [ -f /verif/coq/Gen/UniTables.v ]; then
